@@ -56,6 +56,7 @@ def cbmc_flags(group, extra_defs=None):
     if group.get('unwind') or group.get('unwindset'): f += ['--unwinding-assertions']
     if group.get('objbits'): f += ['--object-bits', group.get('objbits')]
     be = group.get('backend', 'sat')
+    if be == 'sat' and group.get('satsolver'): f += ['--sat-solver', group.get('satsolver')]
     if be == 'cvc5': f += ['--cvc5']
     elif be == 'z3': f += ['--z3']
     elif be == 'kissat': f += ['--external-sat-solver', 'kissat']
@@ -135,6 +136,12 @@ def run_group(spec, group, ctext_spliced, workdir, timeout, trace=False, tag='')
     if trace: cmd += ['--trace']
     r.cmds.append(' '.join(cmd))
     rc, out, err, dt = sh(cmd, timeout)
+    if rc == 'timeout' and group.get('backend', 'sat') == 'sat' and '--sat-solver' not in cmd:
+        # portfolio: the default SAT solver (minisat) occasionally gets stuck in the all-properties loop on an instance
+        # another solver closes in a second (seen when an obligation FAILS); same formula, same bounds, second solver
+        cmd2 = cmd + ['--sat-solver', 'cadical']
+        r.cmds.append(' '.join(cmd2)); r.retried_with = 'cadical'
+        rc, out, err, dt = sh(cmd2, timeout)
     r.seconds = time.time() - t0
     r.log = out[-200000:] if rc == 'timeout' else ''
     if rc == 'timeout':
